@@ -172,6 +172,9 @@ class World:
         self.task = self.loop.create_task(main())
         self.task.add_done_callback(self._done)
         self._run_until_boundary()
+        # time is frozen between jumps: let timers armed with a zero interval
+        # during start-up (restart timeout = PT0S) be *past* due
+        CLOCK.now += 0.001
 
     def _done(self, task):
         try:
@@ -349,9 +352,17 @@ class World:
             job = self.env.jobs.get(jk)
             path = f'{jk[0]}/{jk[1]}/{jk[2]:02d}'
             attrs: Dict[str, Any] = {'job_runner_name': 'background'}
-            if job is None or job.state in ('launching', 'never-launched'):
-                # never (yet) launched: nothing known
+            if job is not None and job.state in (
+                    'launching', 'never-launched'):
+                # job directory exists (job file written) but there is no
+                # job.status file yet: the real `cylc jobs-poll` prints no
+                # summary line for it (=> "poll failed", no state change)
+                continue
+            if job is None:
+                # no job directory at all: reported as vanished
                 attrs['job_runner_exit_polled'] = 1
+                attrs['run_status'] = 1
+                attrs['run_signal'] = 'ERR_JOB_FILES_REMOVED'
             else:
                 attrs['job_id'] = '1234'
                 attrs['time_submit_exit'] = t
